@@ -87,3 +87,9 @@ Theorem C05_matmul_diag_lower_literal (F : fieldType) sq lt n (x d : vec F) (l :
   qsm_mul (fops sq lt) (Diag n x) (Lower d l) = Some C -> den n C = den n (Diag n x) *m den n (Lower d l).
 Proof. exact: mul_diag_lower_sound. Qed.
 Print Assumptions C05_matmul_diag_lower_literal.
+(* diagonal @ upper-triangular in the literal model (the rows of q are scaled; the first row of p has the declared order) *)
+Theorem C05_matmul_diag_upper_literal (F : fieldType) sq lt n (x d : vec F) (u : tri F) (C : qsm F) :
+  size (mrow (tp u) 0) = tm u ->
+  qsm_mul (fops sq lt) (Diag n x) (Upper d u) = Some C -> den n C = den n (Diag n x) *m den n (Upper d u).
+Proof. exact: mul_diag_upper_sound. Qed.
+Print Assumptions C05_matmul_diag_upper_literal.
